@@ -404,6 +404,25 @@ def rule_cost_marks(ctx, rep, config="c-lib"):
                 rep.violation("R13-costmark", key, "%s toggles the cost/visit mark of a node without testing it: a node shared by two parents is toggled twice and keeps a "
                                                    "negative cost" % fn, where=s.where(), witness=[s.where()])
     rep.floor("R13-costmark", "cost-mark toggles", n, 2)
+    # encoding and decoding of the mark agree: every value derived from the negated cost field is  -cost - 1
+    nc = 0
+    for fn in ("prune_to_minimal", "traverse_pruned_translation"):
+        f = p.fn(fn)
+        for s in f.all_insts():
+            if s.op != "store":
+                continue
+            v = lin(f, s.ops[0], 0, 1)
+            neg = [a for a in v.atoms() if a.startswith("L[") and a.endswith("yaep_anode.cost]") and v.t.get(a, 0) < 0]
+            if not neg:
+                continue
+            nc += 1
+            key = "%s/mark-codec#%d" % (fn, nc)
+            if v.c == -1 and len(v.t) == 1 and v.t[neg[0]] == -1:
+                rep.ok("R13-costmark", key, sample={"store": s.where(), "value": repr(v)})
+            else:
+                rep.violation("R13-costmark", key, "%s computes `%r' from a marked cost field, the mark is written as -cost - 1: the cost read back through a second parent "
+                                                   "(or restored after pruning) differs from the cost that was recorded" % (fn, v), where=s.where(), witness=[s.where()])
+    rep.floor("R13-costmark", "cost-mark encode/decode sites", nc, 3)
     # marking and restoring are paired on every path; the tie rule reads the user's one-parse setting
     g = p.fn("find_minimal_translation")
     pr = [i for i in g.calls() if i.callee == "prune_to_minimal"]
@@ -415,6 +434,98 @@ def rule_cost_marks(ctx, rep, config="c-lib"):
                       "costing pass: abstract nodes keep negative cost fields", where=(tr[0].where() if tr else g.where()))
     mp = p.fn("make_parse")
     fm = [i for i in mp.calls() if i.callee == "find_minimal_translation"]
+    # the costing pass is the only code that adds the children's costs into an abstract node: with the cost flag set no path
+    # reaches a successful return (a non-null result) around it
+    for c_ in fm:
+        dead = set()    # edges taken only when cost_p == 0
+        flag_tests = 0
+        for b in mp.rblocks():
+            t = b.term
+            if t is None or t.op != "br" or len(t.ops) != 3:
+                continue
+            c = mp.inst(t.ops[0])
+            if c is None or c.op != "icmp" or const_int(c.ops[1]) != 0 or c.d["pred"] not in ("eq", "ne"):
+                continue
+            lp = loaded_from(mp, c.ops[0])
+            if lp is None or lp.last_field() != "grammar.cost_p":
+                continue
+            flag_tests += 1
+            # ops: cond, false-dest, true-dest
+            zero_dest = t.ops[1]["v"] if c.d["pred"] == "ne" else t.ops[2]["v"]
+            dead.add((b.name, zero_dest))
+        rets = [i for i in mp.all_insts() if i.op == "ret"]
+        good = set()   # (pred block, ret block) edges that deliver a non-null result
+        for r in rets:
+            v = mp.inst(r.ops[0]) if r.ops else None
+            if v is not None and v.op == "phi" and v.block is r.block:
+                for (val, pb) in v.d["incoming"]:
+                    if val.get("k") != "null":
+                        good.add((pb, r.block.name))
+            else:
+                for pb in r.block.preds:
+                    good.add((pb, r.block.name))
+        # a branch that finds the result itself missing does not deliver a translation either
+        res_allocas = set()
+        for r in rets:
+            v = mp.inst(r.ops[0]) if r.ops else None
+            vals = [val for (val, _) in v.d["incoming"]] if (v is not None and v.op == "phi") else (r.ops[:1] if r.ops else [])
+            for val in vals:
+                li = mp.inst(strip_casts(mp, val))
+                if li is not None and li.op == "load":
+                    pa = resolve_addr(mp, li.ops[0])
+                    if pa.root[0] == "alloca" and not pa.steps:
+                        res_allocas.add(pa.root[1])
+        for b in mp.rblocks():
+            t = b.term
+            if t is None or t.op != "br" or len(t.ops) != 3:
+                continue
+            c = mp.inst(t.ops[0])
+            if c is None or c.op != "icmp" or c.ops[1].get("k") != "null" or c.d["pred"] not in ("eq", "ne"):
+                continue
+            li = mp.inst(strip_casts(mp, c.ops[0]))
+            if li is None or li.op != "load":
+                continue
+            pa = resolve_addr(mp, li.ops[0])
+            if pa.root[0] == "alloca" and not pa.steps and pa.root[1] in res_allocas:
+                dead.add((b.name, t.ops[1]["v"] if c.d["pred"] == "ne" else t.ops[2]["v"]))
+        # search
+        prev = {mp.entry.name: None}
+        st = [mp.entry.name]
+        hit = None
+        while st and hit is None:
+            n = st.pop()
+            for s_ in mp.bmap[n].succs:
+                if (n, s_) in dead or s_ == c_.block.name:
+                    continue
+                if (n, s_) in good:
+                    hit = n
+                    break
+                if s_ not in prev:
+                    prev[s_] = n
+                    st.append(s_)
+        if not flag_tests:
+            rep.violation("R13-costmark", "make_parse/costing-whenever-cost-flag", "the cost pass is not controlled by the cost flag", where=c_.where(), witness=[c_.where()])
+        elif hit is None:
+            rep.ok("R13-costmark", "make_parse/costing-whenever-cost-flag", sample={"call": c_.where(), "cost_flag_tests": flag_tests})
+        else:
+            nodes = []
+            n = hit
+            while n is not None:
+                nodes.append(n)
+                n = prev[n]
+            nodes.reverse()
+            path = []
+            for n in nodes:
+                t = mp.bmap[n].term
+                if t is not None and t.op == "br" and len(t.ops) == 3:
+                    path.append(t.where())
+            # deciding branch: the last one on the path from which the call was still reachable
+            dec = [n for n in nodes if c_.block.name in mp.reachable_from(n) and mp.bmap[n].term is not None and len(mp.bmap[n].term.ops) == 3]
+            if dec:
+                path = [w for w in path if w != mp.bmap[dec[-1]].term.where()] + [mp.bmap[dec[-1]].term.where()]
+            rep.violation("R13-costmark", "make_parse/costing-whenever-cost-flag", "with the cost flag set a translation is returned without the pass that adds the children's "
+                          "costs into the abstract nodes (find_minimal_translation), decided by the branch at %s: the cost fields then hold the rules' own costs only and the "
+                          "root cost is not the cost of the translation" % (path[-1] if path else "?"), where=c_.where(), witness=path[-6:] + [c_.where()])
     reads = any(i.op == "load" and resolve_addr(h, i.ops[0]).last_field() == "grammar.one_parse_p"
                 for hn in p.reach("find_minimal_translation") for h in [p.m.functions.get(hn)] if h is not None and not h.decl for i in h.all_insts())
     if fm and reads:
